@@ -1,5 +1,374 @@
 package main
 
-import . "verifharness/internal/core"
+// C07 pipeline: the real SP builds an AuthnRequest, the real IdP (registered
+// from the SP's published metadata, serialised and re-parsed) validates it and
+// answers for a session made of hostile strings, the real SP (configured from
+// the IdP's published metadata, serialised and re-parsed) parses the response.
 
-func c07Pipeline(c *Ctx) {}
+import (
+	. "verifharness/internal/core"
+
+	"crypto"
+	"crypto/x509"
+	"encoding/xml"
+	"fmt"
+	"html"
+	"math/rand"
+	"net/http"
+	"net/http/httptest"
+	"net/url"
+	"regexp"
+	"strings"
+	"time"
+
+	"github.com/crewjam/saml"
+	dsig "github.com/russellhaering/goxmldsig"
+
+	"verifharness/internal/fix"
+)
+
+type c07Setup struct {
+	entityIDSet bool
+	spKey       string // rsa_b rsa_c ec_256
+	cert        bool   // sp.Certificate set (=> metadata advertises an encryption key)
+	binding     string // redirect | post
+	signed      bool
+	idpMethod   string
+	idpSigner   bool
+	initiated   bool
+}
+
+func (s c07Setup) key() map[string]string {
+	return map[string]string{"entity_id_set": fmt.Sprint(s.entityIDSet), "sp_key": s.spKey, "encryption": fmt.Sprint(s.cert), "request_binding": s.binding,
+		"signed_request": fmt.Sprint(s.signed), "idp_method": s.idpMethod, "idp_signer": fmt.Sprint(s.idpSigner), "idp_initiated": fmt.Sprint(s.initiated)}
+}
+
+func xmlReparse(ed *saml.EntityDescriptor) (*saml.EntityDescriptor, error) {
+	buf, err := xml.MarshalIndent(ed, "", "  ")
+	if err != nil {
+		return nil, err
+	}
+	out := &saml.EntityDescriptor{}
+	if err := xml.Unmarshal(buf, out); err != nil {
+		return nil, err
+	}
+	return out, nil
+}
+
+type reparsedRegistry struct{ md *saml.EntityDescriptor }
+
+func (r reparsedRegistry) GetServiceProvider(_ *http.Request, id string) (*saml.EntityDescriptor, error) {
+	if r.md != nil && r.md.EntityID == id {
+		return r.md, nil
+	}
+	return nil, errNotExist
+}
+
+var samlReqRe = regexp.MustCompile(`name="SAMLRequest" value="([^"]*)"`)
+
+type c07Result struct {
+	stage     string // where it stopped: "" = SP returned
+	detail    string
+	accepted  bool
+	nameID    string
+	attrs     []mAttribute
+	relayBack string
+	spMD      *saml.EntityDescriptor
+	reqACSURL string
+	reqIndex  string
+	idpStatus int
+}
+
+func spSigner(name string) crypto.Signer {
+	if strings.HasPrefix(name, "ec") {
+		return fix.ECKey(name)
+	}
+	return fix.RSAKey(name)
+}
+
+func runPipeline(setup c07Setup, sess mSession, now time.Time, relay string) (res c07Result) {
+	defer func() {
+		if p := recover(); p != nil {
+			res.stage, res.detail = "panic", fmt.Sprint(p)
+		}
+	}()
+	cfg := mCfg{SSOURL: "https://idp.example.com/saml/sso", Entity: "https://idp.example.com/saml/metadata", Delay: 90 * time.Second, Skew: 180 * time.Second, Key: 1, Method: setup.idpMethod}
+	if setup.idpSigner {
+		cfg.Signer = iptr(2)
+	}
+	withGlobals(cfg, now, func() {
+		idp := newIDP(cfg, nil, sess.toSAML())
+		idpMD, err := xmlReparse(idp.Metadata())
+		if err != nil {
+			res.stage, res.detail = "idp-metadata", err.Error()
+			return
+		}
+		sp := &saml.ServiceProvider{
+			Key:               spSigner(setup.spKey),
+			MetadataURL:       mustURL("https://sp.example.com/saml2/metadata"),
+			AcsURL:            mustURL("https://sp.example.com/saml2/acs"),
+			IDPMetadata:       idpMD,
+			AllowIDPInitiated: setup.initiated,
+		}
+		if setup.entityIDSet {
+			sp.EntityID = "spn:example-sp"
+		}
+		if setup.cert {
+			sp.Certificate = fix.Cert(setup.spKey)
+		}
+		if setup.signed {
+			if strings.HasPrefix(setup.spKey, "ec") {
+				sp.SignatureMethod = dsig.ECDSASHA256SignatureMethod
+			} else {
+				sp.SignatureMethod = dsig.RSASHA256SignatureMethod
+			}
+		}
+		spMD, err := xmlReparse(sp.Metadata())
+		if err != nil {
+			res.stage, res.detail = "sp-metadata", err.Error()
+			return
+		}
+		res.spMD = spMD
+		idp.ServiceProviderProvider = reparsedRegistry{spMD}
+		rec := httptest.NewRecorder()
+		var ids []string
+		if setup.initiated {
+			idp.ServeIDPInitiated(rec, httptestGet(cfg.SSOURL), spMD.EntityID, relay)
+		} else {
+			bind := saml.HTTPRedirectBinding
+			if setup.binding == "post" {
+				bind = saml.HTTPPostBinding
+			}
+			req, err := sp.MakeAuthenticationRequest(sp.GetSSOBindingLocation(bind), bind, saml.HTTPPostBinding)
+			if err != nil {
+				res.stage, res.detail = "sp-make-request", err.Error()
+				return
+			}
+			ids = []string{req.ID}
+			res.reqACSURL, res.reqIndex = req.AssertionConsumerServiceURL, req.AssertionConsumerServiceIndex
+			var hr *http.Request
+			if setup.binding == "post" {
+				form := string(req.Post(relay))
+				m := samlReqRe.FindStringSubmatch(form)
+				if m == nil {
+					res.stage, res.detail = "sp-post-form", "no SAMLRequest input"
+					return
+				}
+				hr = httpRequest("POST", cfg.SSOURL, html.UnescapeString(m[1]), relay)
+			} else {
+				u, err := req.Redirect(relay, sp)
+				if err != nil {
+					res.stage, res.detail = "sp-redirect", err.Error()
+					return
+				}
+				hr = httptest.NewRequest("GET", u.String(), nil)
+			}
+			idp.ServeSSO(rec, hr)
+		}
+		res.idpStatus = rec.Code
+		if rec.Code != 200 {
+			res.stage, res.detail = "idp", fmt.Sprintf("status %d", rec.Code)
+			return
+		}
+		body := rec.Body.String()
+		am := actionRe.FindStringSubmatch(body)
+		if am == nil {
+			res.stage, res.detail = "idp-form", "no form"
+			return
+		}
+		vals := url.Values{}
+		for _, mm := range inputRe.FindAllStringSubmatch(body, -1) {
+			vals.Set(mm[1], html.UnescapeString(mm[2]))
+		}
+		res.relayBack = vals.Get("RelayState")
+		pr := httptest.NewRequest("POST", html.UnescapeString(am[1]), strings.NewReader(vals.Encode()))
+		pr.Header.Set("Content-Type", "application/x-www-form-urlencoded")
+		if err := pr.ParseForm(); err != nil {
+			res.stage, res.detail = "sp-form", err.Error()
+			return
+		}
+		a, err := sp.ParseResponse(pr, ids)
+		if err != nil {
+			res.detail = err.Error()
+			if ire, ok := err.(*saml.InvalidResponseError); ok && ire.PrivateErr != nil {
+				res.detail = ire.PrivateErr.Error()
+			}
+			return
+		}
+		res.accepted = true
+		if a.Subject != nil && a.Subject.NameID != nil {
+			res.nameID = a.Subject.NameID.Value
+		}
+		for _, st := range a.AttributeStatements {
+			for _, at := range st.Attributes {
+				ma := mAttribute{Friendly: at.FriendlyName, Name: at.Name, Format: at.NameFormat}
+				for _, v := range at.Values {
+					ma.Values = append(ma.Values, mAttrValue{Type: v.Type, Value: v.Value})
+				}
+				res.attrs = append(res.attrs, ma)
+			}
+		}
+	})
+	return res
+}
+
+var errNotExist = osErrNotExist()
+
+// hostile session strings
+func hostileString(r *rand.Rand, class string) string {
+	switch class {
+	case "plain":
+		return pick(r, c06Words)
+	case "valid":
+		return genHostile(r, true)
+	case "cr":
+		return pick(r, []string{"a\rb", "\r", "x\r\ny", "\r\n", "end\r", "\rstart", "a\r\rb"})
+	case "ws":
+		return pick(r, []string{" lead", "trail ", "  ", "\t", "\n", "a\tb", "a\nb", " ", "\n\n x \n"})
+	case "markup":
+		return pick(r, []string{"<a>", "</saml:NameID>", "a&b", "&amp;", "&#xD;", "\"q\"", "'s'", "<!-- c -->", "<![CDATA[x]]>", "]]>", "a]]>b", "]]", ">", "<?xml?>", "&lt;script&gt;"})
+	case "nonbmp":
+		return pick(r, []string{"\U0001F600", "a\U0010FFFFb", "\U00010000", "�", "퟿"})
+	case "empty":
+		return ""
+	default: // bytes that are not XML characters
+		return genHostile(r, false)
+	}
+}
+
+var c07Classes = []string{"plain", "valid", "valid", "cr", "ws", "markup", "nonbmp", "empty", "non-xml"}
+
+func hostileSession(r *rand.Rand) (mSession, string) {
+	cls := pick(r, c07Classes)
+	h := func() string {
+		if r.Intn(3) == 0 {
+			return hostileString(r, cls)
+		}
+		if r.Intn(3) == 0 {
+			return ""
+		}
+		return pick(r, c06Words)
+	}
+	s := mSession{Create: time.Date(2015, 12, 1, 1, 0, 0, 0, time.UTC), Index: h(), NameID: hostileString(r, cls), SubjectID: h(),
+		UserName: h(), Email: h(), CommonName: h(), Surname: h(), GivenName: h(), ScopedAff: h(), EPPN: h()}
+	if r.Intn(4) == 0 {
+		s.NameIDFormat = pick(r, []string{"urn:oasis:names:tc:SAML:1.1:nameid-format:emailAddress", hostileString(r, cls)})
+	}
+	for i, n := 0, r.Intn(3); i < n; i++ {
+		s.Groups = append(s.Groups, h())
+	}
+	for i, n := 0, r.Intn(3); i < n; i++ {
+		a := mAttribute{Friendly: h(), Name: h(), Format: pick(r, []string{"", "urn:oasis:names:tc:SAML:2.0:attrname-format:basic", h()})}
+		for j, m := 0, r.Intn(3); j < m; j++ {
+			a.Values = append(a.Values, mAttrValue{Type: pick(r, []string{"xs:string", "", "xs:anyURI", h()}), Value: hostileString(r, cls)})
+		}
+		s.Custom = append(s.Custom, a)
+	}
+	return s, cls
+}
+
+func genSetup(r *rand.Rand) c07Setup {
+	s := c07Setup{entityIDSet: r.Intn(2) == 0, spKey: pick(r, []string{"rsa_b", "rsa_c", "ec_256"}), cert: r.Intn(2) == 0,
+		binding: pick(r, []string{"redirect", "post"}), idpMethod: pick(r, c06Methods), idpSigner: r.Intn(3) == 0, initiated: r.Intn(6) == 0}
+	if s.spKey == "ec_256" {
+		s.cert = false // an EC certificate cannot receive RSA-OAEP key transport: see the note in the evidence
+	}
+	s.signed = s.cert && r.Intn(2) == 0
+	return s
+}
+
+func spMetaToModel(ed *saml.EntityDescriptor) *mMeta {
+	m := &mMeta{Entity: ed.EntityID}
+	for _, d := range ed.SPSSODescriptors {
+		md := mSPSSO{}
+		for _, e := range d.AssertionConsumerServices {
+			md.ACS = append(md.ACS, mEndpoint{Binding: e.Binding, Location: e.Location, Index: e.Index, Default: e.IsDefault})
+		}
+		for _, k := range d.KeyDescriptors {
+			kd := mKeyDesc{Use: k.Use}
+			for _, c := range k.KeyInfo.X509Data.X509Certificates {
+				kd.Certs = append(kd.Certs, c.Data)
+			}
+			md.KDs = append(md.KDs, kd)
+		}
+		m.Descs = append(m.Descs, md)
+	}
+	return m
+}
+
+func c07Pipeline(c *Ctx) {
+	var gs []*Group
+	for i := 0; i < 4; i++ {
+		gs = append(gs, c.Group(fmt.Sprintf("pipe%d", i), []string{"IdPModel"}, "c07case", "check_c07"))
+	}
+	gr := c.Group("reg", []string{"IdPModel"}, "c07rcase", "check_c07r")
+	now := c05Nows[0]
+	n := 260
+	if c.Thorough() {
+		n = 5000
+	}
+	seenSetup := map[string]bool{}
+	for i := 0; i < n; i++ {
+		setup := genSetup(c.Rng)
+		sess, cls := hostileSession(c.Rng)
+		if i < 16 { // every residue of the assertion length modulo the cipher block, encrypted
+			setup = c07Setup{entityIDSet: i%2 == 0, spKey: "rsa_b", cert: true, binding: "post", idpMethod: ""}
+			sess = mSession{Create: now, NameID: strings.Repeat("n", i), UserName: "u", Groups: []string{"g"}}
+			cls = "length-sweep"
+		}
+		relay := pick(c.Rng, []string{"", "relay", "a&b=c d"})
+		res := runPipeline(setup, sess, now, relay)
+		key := setup.key()
+		key["string_class"] = cls
+		for k, v := range key {
+			c.Count(k + "/" + v)
+		}
+		out := "refused"
+		if res.accepted {
+			out = "accepted"
+		} else if res.stage != "" {
+			out = "stopped-at-" + res.stage
+		}
+		c.Count("pipeline/" + out)
+		var specOK *bool
+		if res.stage == "panic" {
+			specOK = Bptr(false)
+		}
+		if res.accepted && res.relayBack != relay {
+			specOK = Bptr(false)
+		}
+		c.Add(gs[i%len(gs)], &Case{
+			Key:   key,
+			Input: map[string]any{"setup": key, "session": sess, "relay_state": relay},
+			Obs: map[string]any{"accepted": res.accepted, "stopped_at": res.stage, "detail": res.detail, "name_id": res.nameID, "attributes": res.attrs,
+				"relay_state_back": res.relayBack},
+			Term: fmt.Sprintf("{| c7_sess := %s; c7_accepted := %s; c7_nameid := %s; c7_attrs := %s |}",
+				sess.term(), emitBool(res.accepted), emitStr(res.nameID), attrsTerm(res.attrs)),
+			ImplSpecOK: specOK,
+		})
+		// registration: once per SP configuration
+		sk := fmt.Sprintf("%v|%s|%v|%v", setup.entityIDSet, setup.spKey, setup.cert, setup.signed)
+		if res.spMD != nil && !setup.initiated && !seenSetup[sk] {
+			seenSetup[sk] = true
+			md := spMetaToModel(res.spMD)
+			keyTerm := "None"
+			if setup.cert {
+				keyTerm = map[string]string{"rsa_b": "(Some 2)", "rsa_c": "(Some 3)"}[setup.spKey]
+			}
+			c.Count("registration/" + sk)
+			c.Add(gr, &Case{
+				Key:   map[string]string{"class": "sp-metadata-registers", "setup": sk},
+				Input: map[string]any{"sp_metadata_reparsed": md, "request_acs_url": res.reqACSURL, "request_acs_index": res.reqIndex},
+				Obs:   map[string]any{},
+				Term: fmt.Sprintf("{| c7r_md := %s; c7r_certs := %s; c7r_rq := {| rq_id := \"id\"; rq_version := \"2.0\"; rq_issue := 0; rq_destination := \"\"; rq_issuer := (Some %s); rq_acs_url := %s; rq_acs_index := %s |}; c7r_acs := %s; c7r_key := %s |}",
+					md.term(), certTable(md), emitStr(md.Entity), emitStr(res.reqACSURL), emitStr(res.reqIndex), emitStr("https://sp.example.com/saml2/acs"), keyTerm),
+			})
+		}
+	}
+	// documented, not counted: an SP with an ECDSA key and a certificate advertises that certificate for
+	// encryption; the IdP cannot use it (RSA-OAEP key transport) and answers 500
+	ec := runPipeline(c07Setup{spKey: "ec_256", cert: true, binding: "post"}, mSession{Create: now, NameID: "alice"}, now, "")
+	c.Extra["ecdsa_sp_with_certificate"] = fmt.Sprintf("accepted=%v stopped_at=%s detail=%s", ec.accepted, ec.stage, ec.detail)
+}
+
+var _ = x509.ParseCertificate
